@@ -328,7 +328,7 @@ def scenarios(tier, nflows):
     """flow-kind tuples for the explicit histories: every kind in every slot (cyclic) + equal kinds"""
     if nflows == 2:
         if tier == "quick":
-            return [("http", "ws"), ("tcp", "udp"), ("dns", "http")]
+            return [("http", "ws"), ("tcp", "dns")]
         return [(KINDS[i], KINDS[(i + 1) % 5]) for i in range(5)] + [("http", "http")]
     if tier == "quick":
         return [("http", "ws", "tcp"), ("udp", "dns", "http"), ("http", "tcp", "http")]
